@@ -12,7 +12,7 @@ VERIF = os.path.dirname(os.path.dirname(os.path.abspath(__file__)))
 def run(line):
     label, props, expect, specs = line.rstrip("\n").split("\t")
     cmd = [os.path.join(VERIF, "tools", "mutest.py"), "--quiet"]
-    for s in specs.split(" && "):
+    for s in specs.split(" &&& "):
         cmd += ["--sed", s]
     cmd += [label] + props.split(",")
     r = subprocess.run(cmd, stdout=subprocess.PIPE, stderr=subprocess.STDOUT, text=True)
